@@ -12,14 +12,14 @@ cp $src/patch.diff $src/demo.py $out/ 2>/dev/null
 cp $src/notes.md $out/agent_notes.md 2>/dev/null
 log=$out/verify.log; : > $log
 echo "== demo on unmodified tree" >> $log
-(cd $wt && PYTHONPATH=$wt timeout 600 /venv/bin/python $out/demo.py > /tmp/demo0.out 2>&1; echo "exit=$?" >> /tmp/demo0.out); tail -3 /tmp/demo0.out >> $log
+(cd $wt && PYTHONPATH=$wt timeout 600 /venv/bin/python $out/demo.py > /tmp/demo0_$label.out 2>&1; echo "exit=$?" >> /tmp/demo0_$label.out); tail -3 /tmp/demo0_$label.out >> $log
 if ! git -C $wt apply $out/patch.diff 2>>$log; then echo "PATCH DOES NOT APPLY" | tee -a $log; git -C /repo worktree remove --force $wt; exit 7; fi
 echo "== fast tests with the change" >> $log
 (cd $wt && PYTHONPATH=$wt timeout 900 /venv/bin/python -m pytest -q -p no:cacheprovider tests/test_selfies.py tests/test_selfies_utils.py tests/test_specific_cases.py 2>&1 | tail -3) >> $log
 echo "== dataset tests with the change (2000 samples)" >> $log
 (cd $wt && PYTHONPATH=$wt timeout 1800 /venv/bin/python -m pytest -q -p no:cacheprovider tests/test_on_datasets.py --dataset_samples 2000 2>&1 | tail -5) >> $log
 echo "== demo with the change" >> $log
-(cd $wt && PYTHONPATH=$wt timeout 600 /venv/bin/python $out/demo.py > /tmp/demo1.out 2>&1; echo "exit=$?" >> /tmp/demo1.out); tail -3 /tmp/demo1.out >> $log
+(cd $wt && PYTHONPATH=$wt timeout 600 /venv/bin/python $out/demo.py > /tmp/demo1_$label.out 2>&1; echo "exit=$?" >> /tmp/demo1_$label.out); tail -3 /tmp/demo1_$label.out >> $log
 echo "== ./check $pid --tier quick against the tree with the change (VERIF_REPO=$wt; /repo itself is not touched)" >> $log
 cp /verif/evidence/$pid.json /tmp/ev_$pid.bak 2>/dev/null
 (cd /verif && VERIF_REPO=$wt timeout 1800 ./check $pid --tier quick ${SEED_BUDGET:+--budget $SEED_BUDGET} 2>&1 | grep -v WARNING | grep -E "VIOLATION|sig=|RESULT|HARNESS|KNOWN" | cut -c1-400; echo "check_exit=${PIPESTATUS[0]}") >> $log
